@@ -301,6 +301,20 @@ func opX3(level, tag, vec, mode, tmpl string) string {
 		lib = resTag(ex.ExportWith(strings.NewReader(tmpl)))
 	case mode == "chunked":
 		lib = resTag(ex.ExportWith(&chunkReader{data: []byte(tmpl)}))
+	case mode == "held" || mode == "heldreader":
+		// the caller keeps the returned reader and goes on using the library before reading it
+		var r1 io.Reader
+		var e1 error
+		if mode == "held" {
+			r1, e1 = ex.ExportWithString(tmpl)
+		} else {
+			r1, e1 = ex.ExportWith(strings.NewReader(tmpl))
+		}
+		ex.ExportWithString("{{.Version}}-{{.Vector}}")
+		ex.ExportWith(strings.NewReader("x {{.SeverityValue}} y"))
+		ex.ExportWithString("partial {{.Version}} then {{.NoSuchField}}")
+		ex.ExportWithString("{{ unclosed")
+		lib = resTag(r1, e1)
 	case mode == "nilreader":
 		lib = resTag(ex.ExportWith(nil))
 	case strings.HasPrefix(mode, "fail:"):
